@@ -101,6 +101,66 @@ example : HonestConsensus (inputAt prop2 (t2 + 1)) share4 prop2 :=
     signers := Or.inl ⟨3, rfl, by decide, by decide, fun _ => by decide⟩,
     root := by intro h hh; cases hh; rfl, just := by decide, env := Or.inl rfl }
 
+/-! ## the per-epoch duty counter restarts at every epoch boundary
+
+`PeerConsistent` asks the peer's entry to pass `validateDutyCount`. For a signer that performs its regular duty at a steady
+rate this is an invariant of the peer's own updates: the first accepted message of a later epoch sets the counter back to 1
+(if it only ever grew, the fourth epoch's duty would be rejected `too many duties per epoch`). -/
+
+theorem C10_new_epoch_restarts_duty_count (c : NetCfg) (m : QMsg) (ss ss' : SignerState)
+    (h : updSignerConsensus c m (some ss) = .ok ss') (hslot : m.height > ss.slot)
+    (he : epochAtSlot c m.height > epochAtSlot c ss.slot) : ss'.epochDuties = 1 := by
+  unfold updSignerConsensus at h
+  simp only [Option.getD_some, hslot, if_true, he, decide_true] at h
+  split at h
+  · cases h
+    simp only [SignerState.resetSlot]
+    split <;> rfl
+  · cases h
+
+theorem C10_new_epoch_restarts_duty_count_partial (c : NetCfg) (m : PMsg) (ss ss' : SignerState)
+    (h : updPartial c m (some ss) = .ok ss') (hslot : m.slot > ss.slot)
+    (he : epochAtSlot c m.slot > epochAtSlot c ss.slot) : ss'.epochDuties = 1 := by
+  unfold updPartial at h
+  simp only [Option.getD_some, hslot, if_true, he, decide_true] at h
+  split at h
+  · cases h
+    simp [SignerState.resetSlot]
+  · cases h
+
+/-- … and an entry whose counter is 1 passes the duty-count rule for whatever comes next -/
+theorem C10_restarted_entry_is_consistent (ss : SignerState) (role : Nat) (b : Bool) (h : ss.epochDuties = 1) :
+    validateDutyCount ss role b = .ok () := by
+  unfold validateDutyCount
+  split
+  · apply (rejectIf_ok_iff _ _).mpr
+    cases b <;> simp [h] <;> decide
+  · rfl
+
+/-- the verdicts of a history of validation calls on one peer -/
+def verdicts (x : Ctx) : State → List Input → List Outcome
+  | _, [] => []
+  | st, i :: rest => (validate x st i).2 :: verdicts x (validate x st i).1 rest
+
+/-- the commit of operator 2 for its attester duty in epoch 1000 + e (the duty slot moves around inside the epoch),
+    received five seconds into the slot -/
+def dutyCommitAt (slot : Nat) : Input :=
+  inputAt { mtype := 2, height := slot, round := 1, root := 1, fullData := none, signers := [2], sigLen := 96, sigZero := false,
+            pjMalformed := false, pjLen := 0, rcjMalformed := false, rcjLen := 0, justOk := false } (1616508000 + 12 * slot + 5)
+
+def dutyCommit (e : Nat) : Input := dutyCommitAt (32000 + 32 * e + 7 * e % 32)
+
+/-- REGRESSION (steady schedule): one duty per epoch over eight consecutive epochs is accepted by the same peer … -/
+theorem C10_one_duty_per_epoch_accepted :
+    verdicts ctx0 State.empty ((List.range 8).map dutyCommit) = List.replicate 8 .accept := by decide
+
+/-- … and so are two duties in every epoch (the most the rule allows) over five epochs; a third one is what is rejected -/
+theorem C10_two_duties_per_epoch_accepted :
+    verdicts ctx0 State.empty (((List.range 5).map fun e => [dutyCommitAt (32000 + 32 * e + 3), dutyCommitAt (32000 + 32 * e + 9)]).flatten)
+      = List.replicate 10 .accept ∧
+    verdicts ctx0 State.empty [dutyCommitAt 32003, dutyCommitAt 32009, dutyCommitAt 32011]
+      = [.accept, .accept, .reject .TooManyDutiesPerEpoch] := by decide
+
 /-! ## the round timer fires inside the validator's round window -/
 
 /-- ARITHMETIC: the real timer's deadline for round r − 1 is (base delay of the role ≥ 0) + `timerElapsed (r − 1)`:
